@@ -182,3 +182,85 @@ harness! { fn c01_destroy_direct_foo_3() unwind(5) { step_destroy_direct::<w1::F
 harness! { fn c01_destroy_directany_foo_3() unwind(5) { step_destroy_direct::<w1::Foo, 3>(1, P_WORLD) } }
 harness! { fn c01_destroy_wdirect_foo_3() unwind(5) { step_destroy_direct::<w1::Foo, 3>(2, P_QUERY) } }
 harness! { fn c01_destroy_wdirectany_foo_2() unwind(4) { step_destroy_direct::<w1::Foo, 2>(3, P_ALL) } }
+
+/// Two populated archetypes of one world (arbitrary Inv states): an operation on one of them
+/// leaves the other untouched, and a handle of either archetype presented at WORLD level is
+/// routed to its own archetype (generated dispatch) and resolves per that archetype's model.
+pub fn two_archetypes<const N1: usize, const N2: usize>(op: u8) {
+    use w1::*;
+    let mf: Model<N1> = Model::any_inv();
+    let mb: Model<N2> = Model::any_inv();
+    assume_no_overflow(&mf);
+    assume_no_overflow(&mb);
+    let mut world = W1::both(N1, N2);
+    load_into::<Foo, N1>(&mut world, &mf);
+    load_into::<Bar, N2>(&mut world, &mb);
+    // an arbitrary issued-like handle of EITHER archetype
+    let key = sym::any_u32();
+    let ver = sym::any_u32();
+    sym::assume(ver != 0);
+    let id = (key & 0xff) as u8;
+    sym::assume(id == Foo::ID || id == Bar::ID);
+    sym::assume(((key >> 8) as usize) < if id == Foo::ID { N1 } else { N2 });
+    let any = EntityAny::from_raw((key, ver)).ok().unwrap();
+    let exp_f = mf.lookup(Foo::ID, key, ver);
+    let exp_b = mb.lookup(Bar::ID, key, ver);
+    match op {
+        0 => {
+            // world-level dynamic lookups
+            assert!(world.contains(any) == (exp_f.is_some() || exp_b.is_some()), "World::contains routed a handle to the wrong archetype");
+            let got = ecs_find!(world, any, |e: &EntityAny, c: &CA| (e.raw(), c.0));
+            let want = match (exp_f, exp_b) {
+                (Some(d), _) => Some(((key, ver), mf.val[d])),
+                (_, Some(d)) => Some(((key, ver), mb.val[d])),
+                _ => None,
+            };
+            assert!(got == want, "ecs_find! over a shared component reached another archetype's entity");
+        }
+        1 => {
+            // world-level dynamic destroy: only the handle's own archetype changes
+            let hit = world.destroy(any).is_some();
+            assert!(hit == (exp_f.is_some() || exp_b.is_some()));
+            let pf: Model<N1> = read::<Foo, N1>(&mut world);
+            let pb: Model<N2> = read::<Bar, N2>(&mut world);
+            match (exp_f, exp_b) {
+                (Some(d), _) => {
+                    assert_destroyed::<Foo, N1>(&mf, &pf, d);
+                    assert_unchanged::<Bar, N2>(&mb, &pb);
+                }
+                (_, Some(d)) => {
+                    assert_destroyed::<Bar, N2>(&mb, &pb, d);
+                    assert_unchanged::<Foo, N1>(&mf, &pf);
+                }
+                _ => {
+                    assert_unchanged::<Foo, N1>(&mf, &pf);
+                    assert_unchanged::<Bar, N2>(&mb, &pb);
+                }
+            }
+        }
+        _ => {
+            // creation in one archetype leaves the other untouched and the handle differs
+            sym::assume(mf.len < N1);
+            let e = world.create::<ArchFoo>((CA(sym::any_u8()),));
+            let pb: Model<N2> = read::<Bar, N2>(&mut world);
+            assert_unchanged::<Bar, N2>(&mb, &pb);
+            assert!(!world.arch_bar.contains(e.into_any()), "a Foo handle resolves in Bar");
+            // (the arbitrary handle may coincide with the handle just issued: a free position's current
+            // generation was never issued before, see H1; that case is the new entity itself)
+            if any != e.into_any() {
+                assert!(world.contains(any) == (exp_f.is_some() || exp_b.is_some()), "creation changed what an existing handle resolves to");
+            }
+        }
+    }
+    cover!(exp_f.is_some(), "live handle of the first archetype");
+    cover!(exp_b.is_some(), "live handle of the second archetype");
+    cover!(exp_f.is_none() && exp_b.is_none() && id == Bar::ID, "stale handle of the second archetype");
+    std::mem::forget(world);
+}
+
+harness! { fn c01_two_archetypes_lookup_2_2() unwind(4) { two_archetypes::<2, 2>(0) } }
+harness! { fn c01_two_archetypes_destroy_2_2() unwind(4) { two_archetypes::<2, 2>(1) } }
+harness! { fn c01_two_archetypes_create_2_2() unwind(4) { two_archetypes::<2, 2>(2) } }
+harness! { fn c01_two_archetypes_destroy_3_2() unwind(5) { two_archetypes::<3, 2>(1) } }
+harness! { fn c01_destroy_typed_foo_5() unwind(7) { step_destroy::<w1::Foo, 5>(0, P_ARCH) } }
+harness! { fn c01_create_foo_5() unwind(7) { step_create::<w1::Foo, 5>(false, P_ARCH) } }
